@@ -171,6 +171,7 @@ type Case struct {
 	HashOnly         []int // data groups in the hash list only (not read)
 	NoDG1            bool
 	DSNoSKI          bool
+	DSSKIStyle       int // 0 = hash of the key (the usual method); 1-4 = other octet strings (RFC 5280 4.2.1.2: any unique value): 04 12 .., 04 06 .., 30 12 .., one octet
 	CSCANoAKI        bool
 	CSCANoPathLen    bool
 	DSMoreExtensions bool
@@ -358,6 +359,9 @@ func drawCase(ch chooser, fastBias bool) Case {
 	}
 	c.NoDG1 = ch.Weighted("nodg1", 9, 1) == 1
 	c.DSNoSKI = c.SID == 0 && ch.Weighted("dsnoski", 4, 1) == 1
+	if !c.DSNoSKI {
+		c.DSSKIStyle = ch.Weighted("dsskistyle", 6, 1, 1, 1, 1)
+	}
 	c.CSCANoAKI = ch.Weighted("cscanoaki", 3, 1) == 1
 	c.CSCANoPathLen = ch.Weighted("cscanopath", 3, 1) == 1
 	c.DSMoreExtensions = ch.Bool("dsmoreext")
@@ -497,6 +501,17 @@ func build(c Case, src issuer.Source) (*world, error) {
 	dsMut := func(dt *issuer.CertTemplate) {
 		if c.DSNoSKI {
 			dt.SKI = nil
+		} else if base := dt.SubjectKey.SKI(); len(base) >= 18 {
+			switch c.DSSKIStyle {
+			case 1:
+				dt.SKI = append([]byte{0x04, 0x12}, base[:18]...)
+			case 2:
+				dt.SKI = append([]byte{0x04, 0x06}, base[:6]...)
+			case 3:
+				dt.SKI = append([]byte{0x30, 0x12}, base[:18]...)
+			case 4:
+				dt.SKI = []byte{base[0]}
+			}
 		}
 		if c.DSMoreExtensions {
 			dt.Extra = append(dt.Extra,
